@@ -53,15 +53,15 @@ def c03_spaces(tier):
     if tier == "quick":
         S = sigs(POS_CONFIGS, KW_QUICK)
         R = sigs(POS_CONFIGS, KW_SMALL)
-        sp.append(("single", S, None, ("int", "O"), None, ("uniform",), ("plain", "self"), ("ret", "raise")))
+        sp.append(("single", S, None, ("int", "O"), None, ("uniform",), ("plain", "self"), ("ret", "raise", "ret-rw")))
         sp.append(("pairs", S, S, ("int",), ("str", "O"), ("uniform",), ("plain",), ("ret",)))
-        sp.append(("pairs-names-carriers", R, R, ("int",), ("str", "O"), ("uniform", "differing"), ("plain", "self", "selfovld"), ("ret", "raise")))
+        sp.append(("pairs-names-carriers", R, R, ("int",), ("str", "O"), ("uniform", "differing"), ("plain", "self", "selfovld"), ("ret", "raise", "ret-rw")))
     else:
         S = sigs(POS_CONFIGS + POS3, KW_FULL)
         R = sigs(POS_CONFIGS, KW_QUICK)
-        sp.append(("single", S, None, ("int", "str", "O"), None, ("uniform",), ("plain", "self", "selfovld"), ("ret", "raise")))
+        sp.append(("single", S, None, ("int", "str", "O"), None, ("uniform",), ("plain", "self", "selfovld"), ("ret", "raise", "ret-rw")))
         sp.append(("pairs", S, S, ("int", "O"), ("str", "O", "int"), ("uniform",), ("plain",), ("ret",)))
-        sp.append(("pairs-names-carriers", R, R, ("int",), ("str", "O"), ("uniform", "differing"), ("plain", "self", "selfovld"), ("ret", "raise")))
+        sp.append(("pairs-names-carriers", R, R, ("int",), ("str", "O"), ("uniform", "differing"), ("plain", "self", "selfovld"), ("ret", "raise", "ret-rw")))
         T = sigs(POS_CONFIGS, KW_SMALL)
         sp.append(("triples", T, T, ("int",), ("str",), ("uniform",), ("plain",), ("ret",)))
     return sp
@@ -116,7 +116,7 @@ class Val:
     """Distinct objects for every slot so that swaps and substitutions are visible."""
 
     def __init__(self):
-        self.pos = {(i, t): (int(f"{1000 + i}") if t == "int" else "".join(["s", str(i)])) for i in range(3) for t in ("int", "str")}
+        self.pos = {(i, t): (int(f"{1000 + i}") if t == "int" else "".join(["s", str(i)])) for i in range(5) for t in ("int", "str")}
         self.kw = {nm: int(f"{2000 + j}") for j, nm in enumerate(("k", "j"))}
 
 
@@ -260,7 +260,7 @@ def _check_set(mspecs, carrier, body, acc, space, naming, only_call, shared):
                         detail["exc"] = out[2]
                 else:
                     m = rm
-                    exp_kind = "ret" if body == "ret" else "exc:KeyError"
+                    exp_kind = "ret" if body in ("ret", "ret-rw") else "exc:KeyError"
                     if okind != exp_kind:
                         disc = f"accepted-call:{exp_kind}->{okind}"
                         detail["exc"] = out[2] if okind.startswith("exc") else None
@@ -282,7 +282,7 @@ def _check_set(mspecs, carrier, body, acc, space, naming, only_call, shared):
                                 detail.update(param=nm, got=repr(argd[nm])[:60], want=repr(exp)[:60])
                         if carrier != "plain" and argd.get("self") is not inst:
                             disc = "binding:self"
-                        if body == "ret" and out[2] is not rets[m.id]["__ret"]:
+                        if body in ("ret", "ret-rw") and out[2] is not rets[m.id]["__ret"]:
                             disc = "result-not-identical"
                         if body == "raise" and out[3] is not rets[m.id]["__exc"]:
                             disc = "exception-not-identical"
